@@ -340,12 +340,12 @@ func (eng *Engine) noteAlloc(fr *Frame, st *State, in ssa.Instruction, n *Term) 
 	fc := fr.fc
 	for i, cl := range c.allocs {
 		env := fr.newEnv(st, fc.entry)
-		env.vars["$n"] = envVar{n, types.Typ[types.Int]}
+		env.vars["$n"] = envVar{t: n, ty: types.Typ[types.Int]}
 		if !fr.isTop {
 			// names of the top-level function are not visible inside an inlined callee:
 			// evaluate against the top frame's parameters
 			env = eng.topFrame.newEnv(st, fc.entry)
-			env.vars["$n"] = envVar{n, types.Typ[types.Int]}
+			env.vars["$n"] = envVar{t: n, ty: types.Typ[types.Int]}
 		}
 		g := env.boolExpr(cl.expr)
 		fc.oblige(fc.site(fmt.Sprintf("%s#alloc.%d", fc.fn, i+1)), "alloc", cl.ids, st.pc, g, cl, "allocation bound: "+cl.text+fr.posOf(in))
